@@ -150,6 +150,14 @@ MUTANTS = [
     ("copy-drops-last-byte-of-chunk", "varlink-cli/src/proxy.rs", r"writer\.write_all\(&buf\[\.\.len\]\)\?;", "writer.write_all(&buf[..len - 1])?;", {"C18"}),
     ("copy-interrupted-ends-copy", "varlink-cli/src/proxy.rs",
      r"Err\(ref e\) if e\.kind\(\) == ErrorKind::Interrupted => continue,", "Err(ref e) if e.kind() == ErrorKind::Interrupted => return Ok(written),", {"C18"}),
+    ("generator-missing-parameters-method-not-found", "varlink_generator/src/lib.rs",
+     r'call\.reply_invalid_parameter\("parameters"\.into\(\)\)', 'call.reply_method_not_found("parameters".into())', {"C08"}),
+    ("generator-ill-typed-parameters-not-reported", "varlink_generator/src/lib.rs",
+     r"let _ = call\.reply_invalid_parameter\(es\.clone\(\)\);", "", {"C08"}),
+    ("generator-unknown-method-invalid-parameter", "varlink_generator/src/lib.rs",
+     r"call\.reply_method_not_found\(String::from\(m\)\)", "call.reply_invalid_parameter(String::from(m))", {"C08"}),
+    ("generator-wire-name-uses-first-method-only", "varlink_generator/src/lib.rs",
+     r'let varlink_method_name = format!\("\{\}\.\{\}", idl\.name, t\.name\);', 'let varlink_method_name = format!("{}.{}", idl.name, t.name.to_lowercase());', {"C08"}),
 ]
 
 
